@@ -104,7 +104,7 @@ def login_start(s, rng, pw, tag=None):
 
 
 def login(s, rng_c, rng_s, setup, file_h, pw, cred, ctx_c=None, ctx_s=None, id_u_c=None, id_s_c=None, id_u_s=None,
-          id_s_s=None, ksf=None, wire=True, tag=None, pw_finish=None, do_server_finish=True, params_via=None):
+          id_s_s=None, ksf=None, wire=True, tag=None, pw_finish=None, do_server_finish=True, params_via=None, persist=None):
     """One login. Client-side parameters (*_c) and server-side parameters (*_s) are separate so that
     mismatches can be driven. pw_finish: password given to finish if different from start."""
     tag = tag or s.fresh("lg")
@@ -125,6 +125,15 @@ def login(s, rng_c, rng_s, setup, file_h, pw, cred, ctx_c=None, ctx_s=None, id_u
     f.cresp = r2.msg
     f.slogin_state = r2.state
     f.slogin_start = r2
+    if persist:
+        # both parties save their in-flight state and go on with the restored copy (persist = native | bincode | json)
+        for kind, hname in (("clogin", tag + ".cl"), ("slogin", tag + ".sl")):
+            e = s.ser(hname, persist)
+            if f.add("save %s (%s)" % (kind, persist), e).failed:
+                return f
+            d = s.de(kind, e.data if persist == "json" else bytes.fromhex(e.data), codec=persist, out=hname)
+            if f.add("restore %s (%s)" % (kind, persist), d).failed:
+                return f
     h, d = via_wire(s, "cresp", r2.msg, tag + ".cr", wire)
     if d is not None and f.add("de cresp", d).failed:
         return f
